@@ -2,7 +2,7 @@
    BasicContiguousVector (vector.hpp:127-151, 291-297, 471-538) on top of Vector.v,
    scripts and observations.  Definitions only. *)
 From Coq Require Import ZArith List Bool.
-From Cntgs Require Import Base Layout Mem Vector Proxy Elem.
+From Cntgs Require Import Base Layout Mem Vector Proxy Elem Construct.
 Import ListNotations.
 Local Open Scope Z_scope.
 
@@ -52,6 +52,7 @@ Inductive op :=
 | OpEObserve (e : nat)
 | OpECmpE (a b : nat)
 | OpECmpR (e s : nat) (i : Z)                               (* element vs reference, both ways round *)
+| OpCase (tc uc fc : nat) (rv : bool) (n : nat) (src : list Z)   (* emplace_back of one FixedSize/VaryingSize field from a source form *)
 | OpCmpVec (a b : nat)                 (* all six operators between two vectors *)
 | OpCmpRef (a : nat) (i : Z) (b : nat) (j : Z)   (* ... between element references a[i], b[j] *)
 | OpObserve (s : nat).
@@ -66,6 +67,7 @@ Inductive obs :=
 | ORes (r : Z)                                     (* returned index / boolean *)
 | OCmp (r : list bool)                             (* == != < <= > >= *)
 | OIter (r : list Z)
+| OCase (stored : list (list Z)) (moved : list Z)
 | OElem (e : nat) (aid : Z) (bid : nat) (units : Z) (fields : list (Z * list (list Z)))
 | OENull (e : nat)
 | OEGone (e : nat)
@@ -402,6 +404,7 @@ Definition step (K : akind) (L : list param) (w : world) (o : op) : world :=
       let x := gete w e in let v := getv w s in
       emit w [OCmp (cmp_fl L (e_mem x) (e_fl x) (v_mem v) (vfl L v i));
               OCmp (cmp_fl L (v_mem v) (vfl L v i) (e_mem x) (e_fl x))]
+  | OpCase tc uc fc rv n src => let '(st, mvd) := construct_case tc uc fc rv n src in emit w [OCase st mvd]
   | OpCmpVec a b => emit w [OCmp (cmp_vecs L (getv w a) (getv w b))]
   | OpCmpRef a i b j => emit w [OCmp (cmp_refs L (getv w a) i (getv w b) j)]
   | OpObserve s => emit w [obs_vec L s w]
